@@ -459,7 +459,7 @@ func (l *Ledger) applyItem(it *Item, r *types.Receipt, fee *big.Int, height uint
 	l.nonce[it.From] = nonceBefore + 1
 
 	snap := l.snapshot()
-	modelOK := l.simTx(it, r, nonceBefore)
+	modelOK := l.simTx(it, fee)
 	if it.Opaque {
 		// not modelled: follow the receipt, mark what cannot be predicted
 		l.restore(snap)
@@ -511,11 +511,20 @@ func (l *Ledger) applyItem(it *Item, r *types.Receipt, fee *big.Int, height uint
 
 // simTx applies the modelled effects of an account-based transaction (beyond
 // fee and nonce) and reports whether the model expects it to succeed.
-func (l *Ledger) simTx(it *Item, r *types.Receipt, nonceBefore uint64) bool {
+func (l *Ledger) simTx(it *Item, fee *big.Int) bool {
 	from := it.From
+	if it.Token == Native {
+		// the chain first takes gasLimit x price, then looks whether the value is
+		// covered, and refunds unused gas at the end: the value must fit beside
+		// the whole prepayment (the ledger has debited the final fee already)
+		room := add(l.Balance(Native, from), fee)
+		if room.Cmp(add(it.Value, priceOf(it.Gas))) < 0 {
+			return false
+		}
+	}
 	if it.Create != "" {
 		// creation: value moves to the new contract (address taken from the
-		// receipt and cross-checked by the rig against CreateAddress)
+		// receipt and cross-checked against CreateAddress)
 		if l.Balance(Native, from).Cmp(it.Value) < 0 {
 			return false
 		}
